@@ -298,7 +298,7 @@ fn __dump_header(f: &PathBuf, h: &Qcow2Header) {
     println!("Qcow2 Header: image {:?} length {}", f, h.header_length());
     println!("\t version\t {}", h.version());
     println!("\t virtual_size\t {} MB", h.size() >> 20);
-    println!("\t cluster_size\t {} KB", 1 << (h.cluster_bits() - 10));
+    println!("\t cluster_size\t {} B", 1u64 << h.cluster_bits());
     println!("\t refcount_order\t {}", h.refcount_order());
     println!(
         "\t crypt_method\t {}",
@@ -417,15 +417,16 @@ fn format_qcow2(args: FormatArgs) -> Qcow2Result<()> {
 
     let buf = __format_qcow2_buf(size, cluster_bits, refcount_order, bs);
     {
+        // whatever the file held before must not show through as table
+        // entries or guest data
         let mut f = std::fs::OpenOptions::new()
             .read(true)
             .write(true)
             .create(true)
+            .truncate(true)
             .open(&args.file)
             .unwrap();
-        let res = f.write(&buf).unwrap();
-
-        assert!(res == buf.len());
+        f.write_all(&buf).unwrap();
     }
     dump_header(&args.file).unwrap();
 
@@ -643,11 +644,10 @@ fn convert_to_qcow2_prep(raw: &Path, qcow2: &Path) -> Qcow2Result<()> {
     let mut f = std::fs::OpenOptions::new()
         .write(true)
         .create(true)
+        .truncate(true)
         .open(qcow2)
         .unwrap();
-    let res = f.write(&img_buf).unwrap();
-
-    assert!(res == img_buf.len());
+    f.write_all(&img_buf).unwrap();
 
     Ok(())
 }
